@@ -685,6 +685,78 @@ def r6(p, rep):
     return n
 
 
+_ESTABLISH = {}
+
+
+def _establishes(p, g, names, depth=0):
+    """`<thread-local>.<attr>` pseudo-variables that are set (assigned, hasattr-guarded or read under try/except
+    AttributeError with an assignment in the handler) on every normal exit of function g"""
+    from sa.cfg import CFG, decompose
+
+    key = (g.qualname, tuple(sorted(names)))
+    if key in _ESTABLISH:
+        return _ESTABLISH[key]
+    _ESTABLISH[key] = set()
+    if depth > 2 or not isinstance(g.node, (ast.FunctionDef, ast.AsyncFunctionDef)):
+        return set()
+    cand = {norm(t) for a in ast.walk(g.node) if isinstance(a, ast.Assign) for t in a.targets if isinstance(t, ast.Attribute) and norm(t.value) in names}
+    for c in ast.walk(g.node):
+        if isinstance(c, ast.Call) and norm(c.func) == "hasattr" and len(c.args) == 2 and isinstance(c.args[1], ast.Constant) and norm(c.args[0]) in names:
+            cand.add(f"{norm(c.args[0])}.{c.args[1].value}")
+    # helpers called by g
+    for c in ast.walk(g.node):
+        if isinstance(c, ast.Call):
+            r = resolve_callee(p, c, g.module)
+            if r and r[0] == "func" and r[1] is not g:
+                cand |= _establishes(p, r[1], names, depth + 1)
+    if not cand:
+        return set()
+    cfg = CFG(g.node)
+    kill = {}
+    for nd in cfg.nodes:
+        if nd.kind == "stmt" and isinstance(nd.ast, ast.Assign):
+            for t in nd.ast.targets:
+                if isinstance(t, ast.Attribute) and norm(t) in cand:
+                    kill.setdefault(nd.id, set()).add(norm(t))
+        if nd.kind in ("stmt", "test") and nd.ast is not None:
+            e = nd.test if nd.kind == "test" and getattr(nd, "test", None) is not None else nd.ast
+            if not isinstance(e, (ast.If, ast.For, ast.While, ast.Try, ast.With, ast.FunctionDef, ast.ClassDef)):
+                for c in ast.walk(e):
+                    if isinstance(c, ast.Call):
+                        r = resolve_callee(p, c, g.module)
+                        if r and r[0] == "func" and r[1] is not g:
+                            kill.setdefault(nd.id, set()).update(_establishes(p, r[1], names, depth + 1) & cand)
+                # a successful read inside try/except AttributeError shows the attribute exists
+                if nd.kind == "stmt":
+                    for y in ast.walk(e):
+                        if isinstance(y, ast.Attribute) and isinstance(y.ctx, ast.Load) and norm(y) in cand and any(True for _ in common.enclosing_tries(y, g.node)):
+                            kill.setdefault(nd.id, set()).add(norm(y))
+        if nd.kind == "edge" and nd.test is not None and nd.polarity is not None:
+            for t, pol in decompose(nd.test, nd.polarity):
+                if pol and isinstance(t, ast.Call) and norm(t.func) == "hasattr" and len(t.args) == 2 and isinstance(t.args[1], ast.Constant):
+                    kill.setdefault(nd.id, set()).add(f"{norm(t.args[0])}.{t.args[1].value}")
+    OUT = {x.id: set() for x in cfg.nodes}
+    work = list(cfg.nodes)
+    while work:
+        nd = work.pop()
+        if nd is cfg.entry:
+            o = set(cand)
+        else:
+            i = set()
+            for q in nd.pred:
+                i |= OUT[q.id]
+            o = i - kill.get(nd.id, set())
+        if o != OUT[nd.id]:
+            OUT[nd.id] = o
+            work.extend(nd.succ)
+    undefined_at_exit = set()
+    for q in cfg.exit.pred:
+        undefined_at_exit |= OUT[q.id]
+    res = cand - undefined_at_exit
+    _ESTABLISH[key] = res
+    return res
+
+
 def r7(p, rep):
     rep.rule("C10.R7", "an attribute of a threading.local object is set up in the very function (thread) that reads it: other threads start with an empty object", "definite-assignment dataflow on `<thread-local>.<attr>` (hasattr guard or assignment on every path to a read)", floor=4)
     from sa.cfg import CFG, decompose
@@ -720,6 +792,19 @@ def r7(p, rep):
                 for t, pol in decompose(nd.test, nd.polarity):
                     if pol and isinstance(t, ast.Call) and norm(t.func) == "hasattr" and len(t.args) == 2 and isinstance(t.args[1], ast.Constant):
                         kill.setdefault(nd.id, set()).add(f"{norm(t.args[0])}.{t.args[1].value}")
+        # a call of a helper that sets the attribute up on every normal exit establishes it for the caller too
+        for nd in cfg.nodes:
+            if nd.kind in ("stmt", "test") and nd.ast is not None and not isinstance(nd.ast, (ast.If, ast.For, ast.While, ast.Try, ast.With, ast.FunctionDef, ast.ClassDef)) or nd.kind == "test":
+                e = nd.test if nd.kind == "test" and getattr(nd, "test", None) is not None else nd.ast
+                if e is None or isinstance(e, (ast.If, ast.For, ast.While, ast.Try, ast.With, ast.FunctionDef, ast.ClassDef)):
+                    continue
+                for c2 in ast.walk(e):
+                    if isinstance(c2, ast.Call):
+                        r = resolve_callee(p, c2, f.module)
+                        if r and r[0] == "func" and r[1] is not f:
+                            for nm in _establishes(p, r[1], names):
+                                if nm in pseudo:
+                                    kill.setdefault(nd.id, set()).add(nm)
         IN = {x.id: set() for x in cfg.nodes}
         OUT = {x.id: set() for x in cfg.nodes}
         OUT[cfg.entry.id] = set(pseudo)
@@ -743,12 +828,19 @@ def r7(p, rep):
             if nd is None:
                 continue
             n += 1
+            # EAFP: `try: return TL.attr  except AttributeError: TL.attr = ...`
+            if any(any(h.type is None or norm(h.type).split(".")[-1] in ("AttributeError", "Exception", "BaseException") or (isinstance(h.type, ast.Tuple) and any(norm(e).endswith("AttributeError") for e in h.type.elts)) for h in t.handlers) for t in common.enclosing_tries(x, f.node)):
+                rep.ok("C10.R7", f"{f.qualname}:read:{nm}", f"{f.module.rel}:{x.lineno}", f"`{nm}` is read inside try/except AttributeError (initialised in the handler)")
+                continue
             par = getattr(x, "_parent", None)
             own_store = isinstance(par, ast.AugAssign) and par.target is x
             ok = nm not in IN[nd.id] and not own_store
             if not ok and f.cls is not None and f.name in ("__exit__", "_exit", "exit"):
                 # the paired enter method of the same context manager runs first, on the same thread
                 pair = f.cls.methods.get({"__exit__": "__enter__", "_exit": "_enter", "exit": "enter"}[f.name])
+                if pair is not None and nm in _establishes(p, pair, names):
+                    rep.ok("C10.R7", f"{f.qualname}:read:{nm}", f"{f.module.rel}:{x.lineno}", f"`{nm}` is established by the paired {pair.name} of the same context manager (through a set-up helper), which runs first on the same thread")
+                    continue
                 if pair is not None and any((isinstance(a, ast.Assign) and any(norm(t) == nm for t in a.targets)) or (isinstance(a, ast.Call) and norm(a.func) == "hasattr" and len(a.args) == 2 and isinstance(a.args[1], ast.Constant) and f"{norm(a.args[0])}.{a.args[1].value}" == nm) for a in ast.walk(pair.node)):
                     rep.ok("C10.R7", f"{f.qualname}:read:{nm}", f"{f.module.rel}:{x.lineno}", f"`{nm}` is established by the paired {pair.name} of the same context manager, which runs first on the same thread")
                     continue
